@@ -135,7 +135,7 @@ def _sh_sparse(tier):
         return product_pins(kind=[0], n=[3], k=[1], m=[2], starts=[1, 3], finals=[4, 6], perm=[0, 3],
                             unbounded=[False])
     return product_pins(kind=[0], n=[3], k=[1, 2], m=[2, 3, 4], starts=[1, 3, 5], finals=[2, 4, 6],
-                        perm=[0, 2, 3], unbounded=[False, True])
+                        perm=[0, 3], unbounded=[False, True])
 
 
 FUNCS = ["EpsilonNFA.is_empty", "EpsilonNFA.is_deterministic", "NondeterministicFiniteAutomaton.is_deterministic",
